@@ -395,7 +395,7 @@ def main(argv=None):
         'distinct_nontrivial': nontriv,
         'rule': mod.RULE,
         'samples': total.samples[:6] or [],
-        'labels': dict(total.labels.most_common(60)),
+        'labels': dict(total.labels.most_common(150)),
         'counters': {k: v for k, v in total.counts.items()},
         'skipped': dict(total.skipped),
         'excluded_by_bucket': dict(total.excluded),
